@@ -31,6 +31,8 @@ OPS = [
     (r'\bMin\b', 'Max'), (r'\bMax\b', 'Min'), (r'\bmin\(', 'max('), (r'\bmax\(', 'min('),
     (r'\.X\b', '.Y'), (r'\.Y\b', '.X'),
 ]
+GUARD = re.compile(r'^\s*((?:\} else )?if )([^;{]*;\s*)?(.+) \{$')
+OPSEL = 'token'
 DELETE = re.compile(r'^\s+(?:[\w\.\[\]\*]+(?:, [\w\.\[\]\*]+)* (?:=|\+=|-=|\|=) .*[^{,(]|[\w\.]+\([^{]*\)|return .*)$')
 
 
@@ -75,6 +77,16 @@ def mutants_of(path, text):
                 new = line[:m.start()] + rep + line[m.end():]
                 if new != line:
                     res.append((path, ln, 'op%d:%s->%s' % (oi, m.group(0), rep), new))
+        gm = GUARD.match(code.rstrip())
+        if gm and OPSEL in ('guard', 'all'):
+            pre, init, cond = gm.group(1), gm.group(2) or '', gm.group(3)
+            raw_cond = line[gm.start(3):gm.end(3)]
+            raw_init = line[gm.start(2):gm.end(2)] if gm.group(2) else ''
+            res.append((path, ln, 'guard-off', line[:gm.start(1)] + pre + raw_init + 'false && (' + raw_cond + ') {'))
+            res.append((path, ln, 'guard-on', line[:gm.start(1)] + pre + raw_init + 'true || (' + raw_cond + ') {'))
+        if OPSEL == 'guard':
+            res = [r for r in res if r[2].startswith('guard')]
+            continue
         if DELETE.match(code.rstrip()) and not s.startswith('return') :
             res.append((path, ln, 'delete', ''))
         elif s.startswith('return ') and s not in ('return nil', 'return false', 'return true'):
@@ -176,10 +188,12 @@ def main():
     ap.add_argument('ids', nargs='*')
     ap.add_argument('--all', action='store_true', help='run every property anchored in the mutated file (stop at the first kill), not only the sampled one')
     ap.add_argument('--recheck', help='JSON result file(s) (glob): re-run the SURVIVED mutants recorded there with --all')
+    ap.add_argument('--ops', default='token', help='token (default) | guard (if-conditions forced false/true) | all')
     ap.add_argument('--one', help='file:line — apply one given mutant instead of sampling (with --new and ids = checks to run)')
     ap.add_argument('--new', help='replacement text of that line (leading whitespace is kept from the original)')
-    global SEED, ALL
+    global SEED, ALL, OPSEL
     a = ap.parse_args()
+    OPSEL = a.ops
     ALL = a.all or bool(a.recheck)
     if a.recheck:
         import glob
